@@ -158,6 +158,43 @@ pub fn run_c15(ctx: &Ctx, rep: &mut Report) {
             check_slider(sq, occ, rep);
         }
     });
+    // call-history independence: a lookup must not depend on the lookups made before it (a memo, a
+    // "last answer" cell, scratch state).  Each case primes all lookup functions with (s1, occ1) and then
+    // asks (s2, occ2) for every s2, with occ2 derived from occ1 the way consecutive queries of a move
+    // generator or a search are: the same occupancy, the occupancy after a quiet move or a capture
+    // s1->s2, single-square changes, and small integer perturbations of the occupancy word.
+    let n = ctx.budget(200, 2000, 1, 40);
+    ctx.cases(rep, "history", n, |_gid, rng, rep| {
+        let s1 = rng.below(64) as u8;
+        let occ1 = match rng.below(4) {
+            0 => rng.next() & rng.next() & rng.next(),
+            1 => rng.next() & rng.next(),
+            2 => rng.next(),
+            _ => walk_rays(s1, 0, &ORTH) & rng.next() | walk_rays(s1, 0, &DIAG) & rng.next(),
+        } | 1u64 << s1;
+        let step = if miri { 13 } else { 1 };
+        let mut s2 = if miri { rng.below(13) as u8 } else { 0 };
+        while s2 < 64 {
+            let deltas = [
+                0u64,
+                1u64 << s1,                 // capture s1 -> s2 (s2 stays occupied)
+                1u64 << s1 | 1u64 << s2,    // quiet move s1 -> s2
+                1u64 << s2,
+                (s1 ^ s2) as u64,
+                s2 as u64,
+                1u64 << rng.below(64),
+                rng.below(64) as u64,
+                rng.next() & rng.next() & rng.next() & rng.next(),
+            ];
+            for d in deltas.iter() {
+                check_slider(s1, occ1, rep);
+                check_slider(s2, occ1 ^ d, rep);
+                rep.count("ev_history_pairs");
+            }
+            s2 += step;
+        }
+        rep.seen(hash_bytes(&[s1, 1]) ^ occ1.wrapping_mul(0x9E3779B97F4A7C15));
+    });
 }
 
 // ================================================================================================ C16
